@@ -1,0 +1,95 @@
+//! Verification hooks: read-only access to crate-private functions for the external
+//! model/implementation correspondence harness. Compiled only with `--cfg a2lfile_verif`.
+use crate::tokenizer::A2lTokenType;
+use crate::{CompuMethod, DataType, Filename, ItemList, Measurement};
+
+pub fn calc_compu_method_limits(cm: Option<&CompuMethod>, dt: DataType) -> (f64, f64) {
+    crate::checker::verif::calc_compu_method_limits(cm, dt)
+}
+pub fn check_limits_valid(existing: (f64, f64), calculated: (f64, f64)) -> bool {
+    crate::checker::verif::check_limits_valid(existing, calculated)
+}
+pub fn get_datatype_limits(dt: DataType) -> (f64, f64) {
+    crate::checker::verif::get_datatype_limits(dt)
+}
+pub fn unescape_string(text: &str) -> String {
+    crate::parser::verif::unescape_string(text)
+}
+pub fn decode_raw_bytes(filedata: &[u8]) -> String {
+    crate::loader::verif::decode_raw_bytes(filedata)
+}
+pub fn make_unique_name(
+    current_name: &str,
+    orig_map: &ItemList<Measurement>,
+    merge_map: &ItemList<Measurement>,
+) -> String {
+    crate::merge::verif::make_unique_name(current_name, orig_map, merge_map)
+}
+
+/// token kind as a small integer: 0 Identifier, 1 Begin, 2 End, 3 Include, 4 String, 5 Number, 6 Comment
+fn ttype_code(t: &A2lTokenType) -> u8 {
+    match t {
+        A2lTokenType::Identifier => 0,
+        A2lTokenType::Begin => 1,
+        A2lTokenType::End => 2,
+        A2lTokenType::Include => 3,
+        A2lTokenType::String => 4,
+        A2lTokenType::Number => 5,
+        A2lTokenType::Comment => 6,
+    }
+}
+
+/// Run the tokenizer on `text` (file name `name`); tokens as (kind, startpos, endpos, fileid, line),
+/// plus the text of every file in fileid order.
+#[allow(clippy::type_complexity)]
+pub fn tokenize(
+    name: &str,
+    text: &str,
+) -> Result<(Vec<(u8, usize, usize, usize, u32)>, Vec<String>), crate::TokenizerError> {
+    let res = crate::tokenizer::tokenize(&Filename::from(name), 0, text)?;
+    let toks = res
+        .tokens
+        .iter()
+        .map(|t| (ttype_code(&t.ttype), t.startpos, t.endpos, t.fileid, t.line))
+        .collect();
+    Ok((toks, res.filedata))
+}
+
+/// the writer's lexeme functions: each returns the text appended by one call on a fresh Writer
+pub fn writer_quoted_string(indent: usize, value: &str, offset: u32) -> String {
+    let mut w = crate::writer::Writer::new(indent);
+    w.add_quoted_string(value, offset);
+    w.finish()
+}
+pub fn writer_str(indent: usize, value: &str, offset: u32) -> String {
+    let mut w = crate::writer::Writer::new(indent);
+    w.add_str(value, offset);
+    w.finish()
+}
+pub fn writer_str_raw(indent: usize, value: &str, offset: u32) -> String {
+    let mut w = crate::writer::Writer::new(indent);
+    w.add_str_raw(value, offset);
+    w.finish()
+}
+pub fn writer_float(indent: usize, value: f64, offset: u32) -> String {
+    let mut w = crate::writer::Writer::new(indent);
+    w.add_float(value, offset);
+    w.finish()
+}
+macro_rules! writer_int {
+    ($name:ident, $t:ty) => {
+        pub fn $name(indent: usize, value: $t, is_hex: bool, offset: u32) -> String {
+            let mut w = crate::writer::Writer::new(indent);
+            w.add_integer(value, is_hex, offset);
+            w.finish()
+        }
+    };
+}
+writer_int!(writer_i8, i8);
+writer_int!(writer_i16, i16);
+writer_int!(writer_i32, i32);
+writer_int!(writer_i64, i64);
+writer_int!(writer_u8, u8);
+writer_int!(writer_u16, u16);
+writer_int!(writer_u32, u32);
+writer_int!(writer_u64, u64);
